@@ -86,7 +86,16 @@ def gen_case(rng):
         if r.random() < 0.08:
             parts.append('  <defaults><rect style="a:b" text-style="c:d" transform="scale(1)" class="dd" fill="x"/></defaults>')
             feats.add("defaults")
-    text = "<svg>\n" + "\n".join(parts) + "\n</svg>\n"
+    # layout: one element per line, or several / all elements on one source line (error reports are keyed by source position)
+    lay = r.random()
+    if lay < 0.6:
+        text = "<svg>\n" + "\n".join(parts) + "\n</svg>\n"
+    elif lay < 0.8:
+        text = "<svg>" + "".join(p.strip() for p in parts) + "</svg>"
+        feats.add("layout.single-line")
+    else:
+        text = "<svg>\n" + "".join(p + r.choice(["\n", "", " "]) for p in parts) + "\n</svg>\n"
+        feats.add("layout.mixed-lines")
     cfg = docgen.gen_cfg(rng) or {}
     if r.random() < 0.4:
         cfg["seed"] = r.choice([0, 1, 7, 4242, 2 ** 63])
